@@ -227,6 +227,10 @@ func TestVerifReplay(t *testing.T) {
 }
 
 func runOverlayTest(pkgPath, src, workDir string, out *ReplayOutcome) *ReplayOutcome {
+	return runOverlayTestNamed(pkgPath, src, workDir, out, "^TestVerifReplay$")
+}
+
+func runOverlayTestNamed(pkgPath, src, workDir string, out *ReplayOutcome, runPat string) *ReplayOutcome {
 	out.Attempted = true
 	rel := strings.TrimPrefix(pkgPath, ModulePath)
 	pkgDir := filepath.Join(ModuleDir(), rel)
@@ -243,7 +247,7 @@ func runOverlayTest(pkgPath, src, workDir string, out *ReplayOutcome) *ReplayOut
 	os.WriteFile(ovFile, ovb, 0o644)
 	ctx, cancel := context.WithTimeout(context.Background(), 180*time.Second)
 	defer cancel()
-	cmd := exec.CommandContext(ctx, "go", "test", "-tags", "verif", "-overlay", ovFile, "-vet=off", "-count=1", "-timeout", "60s", "-run", "^TestVerifReplay$", "-v", "."+rel)
+	cmd := exec.CommandContext(ctx, "go", "test", "-tags", "verif", "-overlay", ovFile, "-vet=off", "-count=1", "-timeout", "60s", "-run", runPat, "-v", "."+rel)
 	cmd.Dir = ModuleDir()
 	cmd.Env = append(os.Environ(), "GOFLAGS=-mod=mod", "GOPROXY=off", "GOSUMDB=off", "GOTOOLCHAIN=local")
 	var buf bytes.Buffer
@@ -270,6 +274,19 @@ func runOverlayTest(pkgPath, src, workDir string, out *ReplayOutcome) *ReplayOut
 		out.Reason = "replay could not be built or run"
 	}
 	return out
+}
+
+// ReplayWitness runs a hand-written witness scenario (a test function kept under
+// /verif/witness, injected into the package by overlay) against the real code.
+func ReplayWitness(pkgPath, witnessFile, testName, workDir string) *ReplayOutcome {
+	out := &ReplayOutcome{Call: testName + " (" + witnessFile + ")"}
+	src, err := os.ReadFile(filepath.Join(VerifDir(), "witness", witnessFile))
+	if err != nil {
+		out.Reason = err.Error()
+		return out
+	}
+	out.TestSource = string(src)
+	return runOverlayTestNamed(pkgPath, string(src), workDir, out, "^"+testName+"$")
 }
 
 // ReplayFunc replays a counterexample of a function-contract obligation. Only
